@@ -7,6 +7,8 @@
 //   script says so (asynchronously, in any order).
 #include <errno.h>
 #include <fcntl.h>
+#include <poll.h>
+#include <pthread.h>
 #include <stdint.h>
 #include <sys/ioctl.h>
 #include <sys/socket.h>
@@ -108,7 +110,12 @@ class Service : public ola::rpc::TestService {
       pending[q] = p;
       return;
     }
-    response->set_data(request->data());
+    // a request may ask for a reply longer than itself: session_ptr = 2^50 + number of padding bytes
+    if (request->has_session_ptr() && request->session_ptr() >= (1LL << 50) &&
+        request->session_ptr() < (1LL << 50) + 4000000)
+      response->set_data(request->data() + string(request->session_ptr() - (1LL << 50), 'y'));
+    else
+      response->set_data(request->data());
     done->Run();
   }
   void FailedEcho(RpcController *controller, const EchoRequest *request, EchoReply *response,
@@ -377,9 +384,16 @@ struct Endpoint {
   ola::ExportMap export_map;
   Service service;
   OtherService other_service;
-  ola::io::UnixSocket sock;
-  ola::io::UnixSocket *peer;
-  int pfd, cfd;
+  // the channel's descriptor: one end of a socketpair, or (big mode) of a pipe pair whose write side
+  // blocks, with a thread emptying the peer side so that sends of any size go through
+  ola::io::UnixSocket usock;
+  ola::io::PipeDescriptor psock;
+  ola::io::ConnectedDescriptor *sock, *peer;
+  int pwfd, prfd, cfd;
+  bool big;
+  pthread_t reader;
+  pthread_mutex_t mu;
+  volatile bool stop;
   Caller caller;
   string pending_out;   // bytes the channel sent that do not form a whole frame yet
   bool jam;
@@ -389,21 +403,54 @@ struct Endpoint {
   static void OnClose(Endpoint *self, ola::rpc::RpcSession*) { self->handler_runs++; }
 
   bool no_export;
-  Endpoint(bool no_service, bool async, bool no_export_map)
-      : peer(NULL), pfd(-1), cfd(-1), jam(false), handler_runs(0), channel(NULL), no_export(no_export_map) {
+  static void *ReaderMain(void *arg) {
+    Endpoint *e = static_cast<Endpoint*>(arg);
+    while (!e->stop) {
+      struct pollfd p = {e->prfd, POLLIN, 0};
+      poll(&p, 1, 5);
+      e->ReadPeer();
+    }
+    return NULL;
+  }
+  void ReadPeer() {
+    pthread_mutex_lock(&mu);
+    char buf[65536];
+    ssize_t n;
+    while ((n = read(prfd, buf, sizeof(buf))) > 0) pending_out.append(buf, n);
+    pthread_mutex_unlock(&mu);
+  }
+  Endpoint(bool no_service, bool async, bool no_export_map, bool big_mode)
+      : sock(NULL), peer(NULL), pwfd(-1), prfd(-1), cfd(-1), big(big_mode), stop(false), jam(false),
+        handler_runs(0), channel(NULL), no_export(no_export_map) {
+    pthread_mutex_init(&mu, NULL);
     service.async = async;
-    if (!sock.Init()) return;
-    peer = sock.OppositeEnd();
-    pfd = peer->ReadDescriptor();
-    cfd = sock.ReadDescriptor();
-    channel = new RpcChannel(no_service ? NULL : &service, &sock, no_export ? NULL : &export_map);
+    if (big) {
+      if (!psock.Init()) return;
+      sock = &psock;
+      peer = psock.OppositeEnd();
+    } else {
+      if (!usock.Init()) return;
+      sock = &usock;
+      peer = usock.OppositeEnd();
+    }
+    pwfd = peer->WriteDescriptor();
+    prfd = peer->ReadDescriptor();
+    cfd = sock->WriteDescriptor();
+    fcntl(pwfd, F_SETFL, fcntl(pwfd, F_GETFL) | O_NONBLOCK);
+    fcntl(prfd, F_SETFL, fcntl(prfd, F_GETFL) | O_NONBLOCK);
+    channel = new RpcChannel(no_service ? NULL : &service, sock, no_export ? NULL : &export_map);
+    if (big) pthread_create(&reader, NULL, &Endpoint::ReaderMain, this);
     channel->SetChannelCloseHandler(ola::NewSingleCallback(&Endpoint::OnClose, this));
   }
   ~Endpoint() {
+    if (big && channel) {
+      stop = true;
+      pthread_join(reader, NULL);
+    }
     delete channel;
     delete peer;
   }
-  bool StillOpen() { return sock.ValidReadDescriptor(); }
+  bool StillOpen() { return sock->ValidReadDescriptor(); }
 
   // returns false for an unknown token; `emit` says whether the op produces an output record
   bool Apply(const string &tok, bool *emit, std::ostringstream *out) {
@@ -432,7 +479,7 @@ struct Endpoint {
     if (c == 'w') {
       // bytes arrive but the poller has not run yet
       vector<uint8_t> bytes = vh::unhex(rest);
-      if (!bytes.empty() && write(pfd, bytes.data(), bytes.size()) != static_cast<ssize_t>(bytes.size()))
+      if (!bytes.empty() && write(pwfd, bytes.data(), bytes.size()) != static_cast<ssize_t>(bytes.size()))
         return false;
       return true;
     }
@@ -445,15 +492,15 @@ struct Endpoint {
     if (c == 'c') {
       vector<uint8_t> bytes = vh::unhex(rest);
       size_t off = 0;
-      while (off < bytes.size() && sock.ValidReadDescriptor() && peer->ValidReadDescriptor()) {
-        ssize_t w = write(pfd, bytes.data() + off, bytes.size() - off);
+      while (off < bytes.size() && sock->ValidReadDescriptor() && peer->ValidReadDescriptor()) {
+        ssize_t w = write(pwfd, bytes.data() + off, bytes.size() - off);
         if (w > 0) off += w;
         else if (w < 0 && errno != EAGAIN && errno != EINTR) break;
-        int before = sock.ValidReadDescriptor() ? sock.DataRemaining() : 0;
-        Drain(channel, &sock);
-        if (w <= 0 && sock.ValidReadDescriptor() && sock.DataRemaining() == before) break;  // stuck
+        int before = sock->ValidReadDescriptor() ? sock->DataRemaining() : 0;
+        Drain(channel, sock);
+        if (w <= 0 && sock->ValidReadDescriptor() && sock->DataRemaining() == before) break;  // stuck
       }
-      Drain(channel, &sock);
+      Drain(channel, sock);
     } else if (c == 'm') {
       if (!caller.Do(channel, rest)) return false;
     } else if (c == 'k') {
@@ -465,9 +512,8 @@ struct Endpoint {
     // what the channel wrote to us
     std::ostringstream sent;
     if (!jam) {
-      char buf[65536];
-      ssize_t n;
-      while ((n = read(pfd, buf, sizeof(buf))) > 0) pending_out.append(buf, n);
+      ReadPeer();
+      pthread_mutex_lock(&mu);
       while (pending_out.size() >= 4) {
         uint32_t header;
         memcpy(&header, pending_out.data(), 4);
@@ -482,8 +528,9 @@ struct Endpoint {
         }
         pending_out.erase(0, 4 + size);
       }
+      pthread_mutex_unlock(&mu);
     }
-    *out << "x" << (sock.ValidReadDescriptor() ? 0 : 1) << (channel->m_descriptor ? 0 : 1)
+    *out << "x" << (sock->ValidReadDescriptor() ? 0 : 1) << (channel->m_descriptor ? 0 : 1)
          << (no_export ? string("|rx-") : Counters(&export_map)) << g_ctx->done.str() << sent.str() << g_ctx->svc.str() << "|H"
          << handler_runs;
     g_ctx->done.str("");
@@ -620,13 +667,14 @@ string HandleServer(const vector<string> &toks, unsigned nclients, bool async) {
 string Handle(const string &payload) {
   vector<string> toks = vh::split(payload);
   if (!toks.empty() && toks[0] == "P") return HandleParse(toks);
-  bool no_service = false, async = false, oversize_script = false, no_export = false;
+  bool no_service = false, async = false, oversize_script = false, no_export = false, big = false;
   unsigned nchan = 1;
   for (size_t t = 0; t < toks.size(); t++) {
     if (toks[t] == "2") return HandleTwo(toks);
     if (toks[t] == "N") no_service = true;
     if (toks[t] == "E") no_export = true;   // the channel gets no ExportMap
     if (toks[t] == "A") async = true;
+    if (toks[t] == "B") big = true;   // big mode: sends of about 1 MB go through (blocking pipe + draining reader)
     if (toks[t] == "X") oversize_script = true;
     if (toks[t].size() > 1 && toks[t][0] == 'M') nchan = vh::num(toks[t].substr(1));   // multi-channel mode
   }
@@ -641,7 +689,7 @@ string Handle(const string &payload) {
     // all channels live side by side for the whole script
     std::vector<Endpoint*> eps;
     for (unsigned i = 0; i < nchan; i++) {
-      eps.push_back(new Endpoint(no_service, async, no_export));
+      eps.push_back(new Endpoint(no_service, async, no_export, big));
       if (!eps.back()->channel) return "harness-error=socketpair";
     }
     unsigned cur = 0, idx = 0;
@@ -649,7 +697,7 @@ string Handle(const string &payload) {
       const string &tok = toks[t];
       if (tok.empty()) continue;
       char c = tok[0];
-      if (c == '@' || c == 'T' || c == 'Q' || c == 'X' || c == 'N' || c == 'A' || c == 'M' || c == 'E') continue;
+      if (c == '@' || c == 'T' || c == 'Q' || c == 'X' || c == 'N' || c == 'A' || c == 'M' || c == 'E' || c == 'B') continue;
       if (c == 'i') {   // the following ops belong to channel <k>
         cur = vh::num(tok.substr(1));
         if (cur >= nchan) return "harness-error=channel-index";
